@@ -14,7 +14,7 @@ package main
 //                                   plain / TLS dial) | stalltls (a real StartTLS-offering server over TCP whose
 //                                   answers stop after the 101: silence inside the client's StartTLS handshake)
 //                                   | silentws (ws:// upstream whose peer never answers the websocket upgrade)
-//                                   | insecure (a real server without encryption while the
+//                                   | insecure / insecurews (a real socket / websocket server without encryption while the
 //                                   client requires security); the local connection must be served through
 //                                   the good one, and a second one must reuse the session
 //
@@ -216,7 +216,7 @@ func badListener(kind string) (string, func(), error) {
 
 func polnetFirst(bad, carrier string) (string, string) {
 	secure := polnetSecure(carrier)
-	mustSecure := bad == "insecure"
+	mustSecure := bad == "insecure" || bad == "insecurews"
 	if mustSecure && !secure {
 		return "bad-op", ""
 	}
@@ -266,6 +266,14 @@ func polnetFirst(bad, carrier string) (string, string) {
 		}
 		defer plain.Close()
 		badUp = &upstream.Socket{Address: plain.cli.Upstream.Data[0].(*upstream.Socket).Address}
+	case "insecurews":
+		// a real websocket server without a certificate, spelled ws:// — a healthy upstream that cannot be secured
+		plain, err := NewRig(RigOpts{Carrier: "ws", Relay: true})
+		if err != nil {
+			return "fail:rig", err.Error()
+		}
+		defer plain.Close()
+		badUp = &upstream.Http{Address: plain.cli.Upstream.Data[0].(*upstream.Http).Address}
 	default:
 		return "bad-op", ""
 	}
@@ -372,5 +380,6 @@ func (polnetComp) Gen(r *Rand, tier string, emit func(string)) {
 		emit("first silentws ws")
 	}
 	emit("first insecure tcp")
+	emit("first insecurews tcptls")
 	emit("nonsense")
 }
